@@ -221,6 +221,8 @@ def cases_callbacks(tier):
     for order in ("abort-first", "results-first"):
         for abort in (False, True):
             yield "%s/abort=%s" % (order, abort), {"order": order, "abort": abort}
+    # the first run of the object ends with an ordinary exception raised by the user's evaluator: the later runs are as usual
+    yield "abort-first/abort=False/first-run-ends-with-an-exception", {"order": "abort-first", "abort": False, "first_run_raises": True}
 
 
 def scn_callbacks(T, case):
@@ -253,8 +255,12 @@ def scn_callbacks(T, case):
             self._f = f
 
         def run_function(self, *a):
+            runs.append(1)
+            if case.get("first_run_raises") and len(runs) == 1:
+                raise RuntimeError("the evaluator failed")
             return None, "EXIT"
 
+    runs = []
     if T.symbolic:
         sh = T.shadow([MB], stubs={(MB, "Plan"): FakePlan})
         cls = T.under_contract(sh, MB, "BasicOptimizer")
@@ -279,7 +285,10 @@ def scn_callbacks(T, case):
             bo.set_results_callback(results_cb).set_abort_callback(abort_cb)
         payload = ("r0", "r1")
         for run in (1, 2, 3):
-            bo.run()
+            try:
+                bo.run()
+            except RuntimeError:
+                T.prove("C15.basic.only_the_users_exception_escapes", bool(case.get("first_run_raises")) and run == 1)
             # after the first, the second and the third run of the SAME object: one event, one invocation of each callback
             for et in (EventType.START_EVALUATION, EventType.FINISHED_EVALUATION):
                 del log[:]
